@@ -132,6 +132,7 @@ type world struct {
 	insts   map[int]*inst
 	mirror  bool
 	keyOf   map[[32]byte]string // lock key -> origin
+	logKeys map[string]map[int]bool // origin -> every log key id ever listed for it (mon_logkey)
 	heldReq map[string]*held    // "inst/origin" -> request parked at a gate
 	nWrites int
 	nUps    int
@@ -263,6 +264,13 @@ func (w *world) addLog(i int, origin string, keyID int, fcreate, ffetch, fcfetch
 	in.p.clear()
 	os.Remove(path)
 	w.keyOf[lockKey("witness log\n", w.kr.wEd.Public().(ed25519.PublicKey), origin)] = origin
+	if w.logKeys == nil {
+		w.logKeys = map[string]map[int]bool{}
+	}
+	if w.logKeys[origin] == nil {
+		w.logKeys[origin] = map[int]bool{}
+	}
+	w.logKeys[origin][keyID] = true
 	res := "ok"
 	if err != nil {
 		res = "err"
